@@ -1,0 +1,104 @@
+// SPDX-FileCopyrightText: 2026 The Pion community <https://pion.ly>
+// SPDX-License-Identifier: MIT
+
+//go:build verif
+
+package jitterbuffer
+
+// Machine-checked contracts (comment-only; read by /verif/govc, never compiled into a normal build).
+//
+// ---- priority queue: abstract view (property C18)
+// Q[p]  : the packet a Find / PopAt for priority p returns (nil if none is buffered under p)
+//@ ghost (PriorityQueue) Q [uint16]*rtp.Packet
+//@
+//@ func (*PriorityQueue).Length
+//@   pure
+//@   modifies nothing
+//@   ensures len: result == q.length
+//@
+//@ func (*PriorityQueue).Find
+//@   trusted queue contract (linked-list implementation: see DESIGN.md C18)
+//@   modifies nothing
+//@   ensures found: q.Q[sqNum] != nil ==> result0 == q.Q[sqNum] && result1 == nil
+//@   ensures absent: q.Q[sqNum] == nil ==> result0 == nil && result1 != nil
+//@
+//@ func (*PriorityQueue).PopAt
+//@   trusted queue contract (linked-list implementation: see DESIGN.md C18)
+//@   modifies q.next, q.length, q.Q, all node.*
+//@   ensures found: old(q.Q)[sqNum] != nil ==> result0 == old(q.Q)[sqNum] && result1 == nil && q.length == old(q.length) - 1 && q.Q[sqNum] != result0
+//@   ensures others_kept: forall k uint16 :: k != sqNum ==> q.Q[k] == old(q.Q)[k]
+//@   ensures absent: old(q.Q)[sqNum] == nil ==> result0 == nil && result1 != nil && q.length == old(q.length) && q.Q[sqNum] == nil
+//@
+//@ func (*PriorityQueue).Push
+//@   trusted queue contract (linked-list implementation: see DESIGN.md C18)
+//@   requires pkt: val != nil
+//@   modifies q.next, q.length, q.Q, all node.*
+//@   ensures stored: q.Q[priority] == val && q.length == old(q.length) + 1
+//@   ensures others_kept: forall k uint16 :: k != priority ==> q.Q[k] == old(q.Q)[k]
+//@
+//@ func (*PriorityQueue).Clear
+//@   trusted queue contract (linked-list implementation: see DESIGN.md C18)
+//@   modifies q.next, q.length, q.Q, all node.*
+//@   ensures emptied: q.length == 0 && (forall k uint16 :: q.Q[k] == nil)
+//@
+//@ # listeners are observers: they are assumed not to modify the jitter buffer they are told about
+//@ func (*JitterBuffer).emit
+//@   trusted event listeners do not modify the jitter buffer
+//@   modifies nothing
+//@
+//@ # ---- jitter buffer against the queue contract
+//@ pred jbInv(jb *JitterBuffer) := jb.packets != nil
+//@
+//@ func (*JitterBuffer).Push
+//@   requires inv: jbInv(jb) && packet != nil
+//@   modifies jb.playoutHead, jb.lastSequence, jb.stats.outOfOrderCount, jb.stats.overflowCount, jb.state, jb.playoutReady, jb.mutex,
+//@            jb.packets.next, jb.packets.length, jb.packets.Q, all node.*
+//@   ensures buffered: jb.packets.Q[packet.SequenceNumber] == packet
+//@   ensures others_kept: forall k uint16 :: k != packet.SequenceNumber ==> jb.packets.Q[k] == old(jb.packets.Q)[k]
+//@   ensures head_is_first_buffered: !old(jb.playoutReady) && old(jb.packets.length) == 0 ==> jb.playoutHead == packet.SequenceNumber
+//@   ensures head_otherwise_kept: !(!old(jb.playoutReady) && old(jb.packets.length) == 0) ==> jb.playoutHead == old(jb.playoutHead)
+//@   ensures playback_starts: jb.state == ite(old(jb.state) == Buffering && jb.packets.length >= jb.minStartCount, Emitting, old(jb.state))
+//@   ensures ready_flag: jb.playoutReady == (old(jb.playoutReady) || (old(jb.state) == Buffering && jb.packets.length >= jb.minStartCount))
+//@
+//@ func (*JitterBuffer).Pop
+//@   requires inv: jbInv(jb)
+//@   modifies jb.playoutHead, jb.stats.underflowCount, jb.state, jb.playoutReady, jb.mutex, jb.packets.next, jb.packets.length, jb.packets.Q, all node.*
+//@   ensures refused_before_playback: old(jb.state) != Emitting ==> result0 == nil && result1 == ErrPopWhileBuffering
+//@        && jb.playoutHead == old(jb.playoutHead) && (forall k uint16 :: jb.packets.Q[k] == old(jb.packets.Q)[k])
+//@   ensures in_order: old(jb.state) == Emitting && old(jb.packets.Q)[old(jb.playoutHead)] != nil ==>
+//@        result0 == old(jb.packets.Q)[old(jb.playoutHead)] && result1 == nil && jb.playoutHead == old(jb.playoutHead) + 1
+//@   ensures at_most_once: old(jb.state) == Emitting && result0 != nil ==> jb.packets.Q[old(jb.playoutHead)] != result0
+//@   ensures others_kept: forall k uint16 :: k != old(jb.playoutHead) ==> jb.packets.Q[k] == old(jb.packets.Q)[k]
+//@   ensures missing_fails_without_disturbing: old(jb.state) == Emitting && old(jb.packets.Q)[old(jb.playoutHead)] == nil ==>
+//@        result0 == nil && result1 != nil && jb.playoutHead == old(jb.playoutHead) && jb.packets.Q[old(jb.playoutHead)] == nil
+//@
+//@ func (*JitterBuffer).PopAtSequence
+//@   requires inv: jbInv(jb)
+//@   modifies jb.playoutHead, jb.stats.underflowCount, jb.state, jb.playoutReady, jb.mutex, jb.packets.next, jb.packets.length, jb.packets.Q, all node.*
+//@   ensures refused_before_playback: old(jb.state) != Emitting ==> result0 == nil && result1 == ErrPopWhileBuffering && (forall k uint16 :: jb.packets.Q[k] == old(jb.packets.Q)[k])
+//@   ensures exact: old(jb.state) == Emitting && old(jb.packets.Q)[sq] != nil ==> result0 == old(jb.packets.Q)[sq] && result1 == nil && jb.packets.Q[sq] != result0
+//@   ensures others_kept: forall k uint16 :: k != sq ==> jb.packets.Q[k] == old(jb.packets.Q)[k]
+//@   ensures missing_fails_without_disturbing: old(jb.state) == Emitting && old(jb.packets.Q)[sq] == nil ==> result0 == nil && result1 != nil && jb.playoutHead == old(jb.playoutHead) && jb.packets.Q[sq] == nil
+//@
+//@ func (*JitterBuffer).PeekAtSequence
+//@   requires inv: jbInv(jb)
+//@   modifies jb.mutex
+//@   ensures peek: result0 == jb.packets.Q[sq] && ((result0 == nil) <==> (result1 != nil))
+//@
+//@ func (*JitterBuffer).Peek
+//@   requires inv: jbInv(jb)
+//@   modifies jb.mutex
+//@   ensures empty: jb.packets.length < 1 ==> result0 == nil && result1 == ErrBufferUnderrun
+//@   ensures at_head: jb.packets.length >= 1 && playoutHead && jb.state == Emitting ==> result0 == jb.packets.Q[jb.playoutHead]
+//@   ensures at_last: jb.packets.length >= 1 && !(playoutHead && jb.state == Emitting) ==> result0 == jb.packets.Q[jb.lastSequence]
+//@
+//@ func (*JitterBuffer).SetPlayoutHead
+//@   modifies jb.playoutHead, jb.mutex
+//@   ensures set: jb.playoutHead == playoutHead
+//@
+//@ func (*JitterBuffer).Clear
+//@   requires inv: jbInv(jb)
+//@   modifies jb.lastSequence, jb.state, jb.stats.outOfOrderCount, jb.stats.underflowCount, jb.stats.overflowCount, jb.minStartCount, jb.mutex,
+//@            jb.packets.next, jb.packets.length, jb.packets.Q, all node.*
+//@   ensures nothing_left: forall k uint16 :: jb.packets.Q[k] == nil
+//@   ensures reset: resetState ==> jb.state == Buffering && jb.minStartCount == 50
